@@ -65,6 +65,14 @@ WRAPS = {
 }
 
 
+# wrapper -> the accepted result is exactly the wrapped number plus the documented decoration
+WRAP_REST = {
+    'ch.vat': lambda r, u: r[:12] == u and r[12:] in ('MWST', 'TVA', 'IVA', 'TPV'),
+    'se.vat': lambda r, u: r == u + '01',
+    'no.mva': lambda r, u: r in (u + 'MVA',),
+}
+
+
 def mod(name):
     return importlib.import_module('stdnum.' + name)
 
@@ -85,6 +93,7 @@ def neighbours(v):
                 if c != ch:
                     out.append(v[:i] + c + v[i + 1:])
         out.append(v[:i] + v[i + 1:])
+        out.append(v[:i] + ('X' if ch.isalpha() else '0') + v[i:])       # one more character of the same kind
         if i + 1 < len(v) and v[i] != v[i + 1]:
             out.append(v[:i] + v[i + 1] + v[i] + v[i + 2:])
     return out
@@ -325,6 +334,10 @@ def work(item):
                     po = outcome(wm.validate, proj(wo[1]))
                     if not acc(po):
                         viol('wrapped-rejects', wname, x, '%s accepts %r as %r but %s rejects %r' % (wname, x, wo[1], wrapped, proj(wo[1])), dev)
+                    elif wname in WRAP_REST and not WRAP_REST[wname](wo[1], po[1]):
+                        # nothing but the wrapped number and the documented decoration is part of an accepted number
+                        viol('wrapper-accepts-more', wname, x, '%s accepts %r as %r: more than the %s number %r and its documented suffix' % (
+                            wname, x, wo[1], wrapped, po[1]), dev)
         vals2, t0 = valid_numbers(wrapped, tier)
         tr += t0
         for v in vals2:
